@@ -25,11 +25,32 @@ def cpool(hs):
     return f"(mkP VO {clist(chist(h) for h in hs)})"
 
 
-def py_which(which):
+class IndexLike:
+    """an object that is an index (has __index__) without being an int"""
+
+    def __init__(self, i):
+        self.i = i
+
+    def __index__(self):
+        return self.i
+
+    def __repr__(self):
+        return f"IndexLike({self.i})"
+
+
+def py_which(which, ityp=None):
+    """ityp: how integer positions are spelled - None (int), "npint64", "indexlike", "mixed" (alternating)"""
     out = []
-    for w in which or []:
+    for j, w in enumerate(which or []):
         if "i" in w:
-            out.append(w["i"])
+            t = ityp if ityp != "mixed" else (None, "npint64", "indexlike")[j % 3]
+            if t == "npint64":
+                import numpy
+                out.append(numpy.int64(w["i"]))
+            elif t == "indexlike":
+                out.append(IndexLike(w["i"]))
+            else:
+                out.append(w["i"])
         else:
             out.append(slice(*w["s"]))
     return tuple(out)
